@@ -4,11 +4,137 @@
 
 package vals
 
+// ---------------------------------------------------------------------------
+// C13: indexing and slicing follow the language reference.
+//
+// Reference semantics (website/ref/language.md, "List" and "String"):
+//   single index i is valid iff -n <= i < n and denotes element (i<0 ? i+n : i);
+//   a slice a..b denotes [adj(a), adj(b)) with defaults 0 and n, valid iff
+//   -n <= a,b <= n and adj(a) <= adj(b); a..=b is a..(b+1) except that ..=-1
+//   means "to the end".
+
+//@ spec fn adj(i int, n int) int = i < 0 ? i + n : i
+//@ spec fn k3(s string) int = sindex(s, "..=")
+//@ spec fn k2(s string) int = sindex(s, "..")
+//@ spec fn isslice(s string) bool = k3(s) >= 0 || k2(s) >= 0
+//@ spec fn lowpart(s string) string = k3(s) >= 0 ? s[:k3(s)] : s[:k2(s)]
+//@ spec fn highpart(s string) string = k3(s) >= 0 ? s[k3(s)+3:] : s[k2(s)+2:]
+//@ spec fn inclusive(s string) bool = k3(s) >= 0
+//@ spec fn lowval(s string) int = len(lowpart(s)) == 0 ? 0 : atoi_val(lowpart(s))
+//@ spec fn highraw(s string, n int) int = len(highpart(s)) == 0 ? n : atoi_val(highpart(s))
+//@ spec fn highval(s string, n int) int = len(highpart(s)) == 0 ? n : (inclusive(s) ? (atoi_val(highpart(s)) == -1 ? n : atoi_val(highpart(s)) + 1) : atoi_val(highpart(s)))
+//@ spec fn partsok(s string) bool = (len(lowpart(s)) == 0 || atoi_ok(lowpart(s))) && (len(highpart(s)) == 0 || atoi_ok(highpart(s)))
+
 //@ func adjustAndCheckIndex
 //@   props C13
 //@   results r err
 //@   pure
 //@   requires 0 <= n && n < MaxInt
 //@   ensures (err == nil) == (-n <= i && (includeN ? i <= n : i < n))
-//@   ensures err == nil ==> r == (i < 0 ? i + n : i)
+//@   ensures err == nil ==> r == adj(i, n)
 //@   ensures err != nil ==> r == 0
+
+//@ func splitIndexString
+//@   props C13
+//@   pure
+//@   ensures !isslice(s) ==> len(sep) == 0 && low === s && len(high) == 0
+//@   ensures isslice(s) ==> low === lowpart(s) && high === highpart(s)
+//@   ensures isslice(s) ==> (inclusive(s) ? sep == "..=" : sep == "..")
+
+//@ func atoi
+//@   props C13
+//@   results r err
+//@   pure
+//@   ensures err == nil ==> atoi_ok(a) && r == atoi_val(a)
+//@   ensures err != nil ==> r == 0 && !atoi_ok(a)
+
+//@ func parseIndexString
+//@   props C13
+//@   pure
+//@   requires 0 <= n && n < MaxInt - 1
+//@   ensures slice == (err == nil && isslice(s))
+//@   ensures !isslice(s) ==> ((err == nil) == atoi_ok(s))
+//@   ensures !isslice(s) && err == nil ==> i == atoi_val(s)
+//@   ensures isslice(s) ==> ((err == nil) == partsok(s))
+//@   ensures isslice(s) && err == nil ==> i == lowval(s)
+//@   ensures isslice(s) && err == nil && (highraw(s, n) < MaxInt || !inclusive(s)) ==> j == highval(s, n)
+//@   ensures isslice(s) && err == nil && highraw(s, n) == MaxInt && inclusive(s) ==> j == MinInt
+
+//@ func ConvertListIndex
+//@   props C13
+//@   results idx err
+//@   requires 0 <= n && n < MaxInt - 1
+//@   ensures err == nil ==> idx != nil
+//@   ensures err == nil && !idx.Slice ==> 0 <= idx.Lower && idx.Lower < n
+//@   ensures err == nil && idx.Slice ==> 0 <= idx.Lower && idx.Lower <= idx.Upper && idx.Upper <= n
+//@   ensures !istype(rawIndex, int) && !istype(rawIndex, string) ==> err != nil
+//   integer index
+//@   ensures istype(rawIndex, int) ==> (err == nil) == (-n <= rawIndex.(int) && rawIndex.(int) < n)
+//@   ensures err == nil && istype(rawIndex, int) ==> !idx.Slice && idx.Lower == adj(rawIndex.(int), n)
+//   string holding a single index
+//@   ensures istype(rawIndex, string) && !isslice(rawIndex.(string)) ==> (err == nil) == (atoi_ok(rawIndex.(string)) && -n <= atoi_val(rawIndex.(string)) && atoi_val(rawIndex.(string)) < n)
+//@   ensures err == nil && istype(rawIndex, string) && !isslice(rawIndex.(string)) ==> !idx.Slice && idx.Lower == adj(atoi_val(rawIndex.(string)), n)
+//   string holding a slice a..b / a..=b
+//@   ensures err == nil && istype(rawIndex, string) && isslice(rawIndex.(string)) ==> idx.Slice && idx.Lower == adj(lowval(rawIndex.(string)), n) && idx.Upper == adj(highval(rawIndex.(string), n), n)
+//@   ensures istype(rawIndex, string) && isslice(rawIndex.(string)) && partsok(rawIndex.(string)) && highraw(rawIndex.(string), n) < MaxInt ==> (err == nil) == (-n <= lowval(rawIndex.(string)) && lowval(rawIndex.(string)) <= n && -n <= highval(rawIndex.(string), n) && highval(rawIndex.(string), n) <= n && adj(lowval(rawIndex.(string)), n) <= adj(highval(rawIndex.(string), n), n))
+//@   ensures istype(rawIndex, string) && isslice(rawIndex.(string)) && !partsok(rawIndex.(string)) ==> err != nil
+
+// "invalid" = the decoder reports an encoding error at byte offset i of s.
+//@ spec fn invalidat(s string, i int) bool = runeat(s, i) == RuneError && sizeat(s, i) == 1
+//@ spec fn invalidbefore(s string, i int) bool = lastrune(s, i) == RuneError && lastsize(s, i) == 1
+
+//@ func startsWithRuneBoundary
+//@   props C13
+//@   pure
+//@   ensures result == (len(s) == 0 || !invalidat(s, 0))
+
+//@ func endsWithRuneBoundary
+//@   props C13
+//@   pure
+//@   ensures result == (len(s) == 0 || !invalidbefore(s, len(s)))
+
+//@ func convertStringIndex
+//@   props C13
+//@   results i j err
+//@   ensures err == nil ==> 0 <= i && i <= j && j <= len(s)
+//@   ensures !istype(rawIndex, int) && !istype(rawIndex, string) ==> err != nil
+//   integer index: a byte offset at which a character starts
+//@   ensures istype(rawIndex, int) ==> (err == nil) == (-len(s) <= rawIndex.(int) && rawIndex.(int) < len(s) && !invalidat(s, adj(rawIndex.(int), len(s))))
+//@   ensures err == nil && istype(rawIndex, int) ==> i == adj(rawIndex.(int), len(s)) && j == i + sizeat(s, i)
+//   slice: both bounds must be character boundaries
+//@   ensures err == nil && istype(rawIndex, string) && isslice(rawIndex.(string)) ==> i == adj(lowval(rawIndex.(string)), len(s)) && j == adj(highval(rawIndex.(string), len(s)), len(s))
+//@   ensures err == nil && istype(rawIndex, string) && isslice(rawIndex.(string)) ==> (i == len(s) || !invalidat(s, i)) && (j == 0 || !invalidbefore(s, j))
+
+//@ func indexString
+//@   props C13
+//@   results r err
+//@   ensures err == nil && istype(index, int) ==> r === s[adj(index.(int), len(s)) : adj(index.(int), len(s)) + sizeat(s, adj(index.(int), len(s)))]
+//@   ensures err == nil && istype(index, string) && isslice(index.(string)) ==> r === s[adj(lowval(index.(string)), len(s)) : adj(highval(index.(string), len(s)), len(s))]
+
+//@ func assocString
+//@   props C13
+//@   results r err
+//@   ensures err == nil ==> istype(v, string) && istype(r, string)
+//@   ensures err == nil && istype(k, int) ==> len(r.(string)) == len(s) - sizeat(s, adj(k.(int), len(s))) + len(v.(string))
+//@   ensures err == nil && istype(k, int) ==> (forall p int :: 0 <= p && p < adj(k.(int), len(s)) ==> r.(string)[p] == s[p])
+//@   ensures err == nil && istype(k, int) ==> (forall p int :: 0 <= p && p < len(v.(string)) ==> r.(string)[adj(k.(int), len(s)) + p] == v.(string)[p])
+//@   ensures err == nil && istype(k, int) ==> (forall p int :: adj(k.(int), len(s)) + sizeat(s, adj(k.(int), len(s))) <= p && p < len(s) ==> r.(string)[p - sizeat(s, adj(k.(int), len(s))) + len(v.(string))] == s[p])
+
+//@ func indexList
+//@   props C13
+//@   results r err
+//@   requires l != nil
+//@   ensures istype(rawIndex, int) ==> (err == nil) == (-vec_len(l) <= rawIndex.(int) && rawIndex.(int) < vec_len(l))
+//@   ensures err == nil && istype(rawIndex, int) ==> r === vec_at(l, adj(rawIndex.(int), vec_len(l)))
+//@   ensures err == nil && istype(rawIndex, string) && !isslice(rawIndex.(string)) ==> r === vec_at(l, adj(atoi_val(rawIndex.(string)), vec_len(l)))
+//@   ensures err == nil && istype(rawIndex, string) && isslice(rawIndex.(string)) ==> istype(r, vector.Vector) && vec_len(r.(vector.Vector)) == adj(highval(rawIndex.(string), vec_len(l)), vec_len(l)) - adj(lowval(rawIndex.(string)), vec_len(l))
+//@   ensures err == nil && istype(rawIndex, string) && isslice(rawIndex.(string)) ==> (forall p int :: 0 <= p && p < vec_len(r.(vector.Vector)) ==> vec_at(r.(vector.Vector), p) === vec_at(l, adj(lowval(rawIndex.(string)), vec_len(l)) + p))
+
+//@ func assocList
+//@   props C13
+//@   results r err
+//@   requires l != nil
+//@   ensures istype(k, int) ==> (err == nil) == (-vec_len(l) <= k.(int) && k.(int) < vec_len(l))
+//@   ensures istype(k, string) && isslice(k.(string)) ==> err != nil
+//@   ensures err == nil && istype(k, int) ==> istype(r, vector.Vector) && vec_len(r.(vector.Vector)) == vec_len(l) && vec_at(r.(vector.Vector), adj(k.(int), vec_len(l))) === v
+//@   ensures err == nil && istype(k, int) ==> (forall p int :: 0 <= p && p < vec_len(l) && p != adj(k.(int), vec_len(l)) ==> vec_at(r.(vector.Vector), p) === vec_at(l, p))
